@@ -69,11 +69,14 @@ CONSTANTS Classes,      \* catalogue classes to generate
           DocStarts,    \* subset of BOOLEAN
           Pads,         \* blanks at the start of a QUOTED scalar with placeholders, between its literal text and the
                         \* first placeholder, and at its end; subset of 0..3
+          Wraps,        \* 0: every flow collection on one line; n > 0: the flow collection that holds the target is WRAPPED:
+                        \* line break in front of the marked entry, continuation line indented n blanks more than the
+                        \* line it continues, i.e. LESS than the column of the first entry (line and column order disagree)
           Negs,         \* subset of BOOLEAN: filter pattern written in its negated form `!pattern` (quoted only)
           CheckShiftLaw \* BOOLEAN: evaluate ShiftLaw (two more renderings per vector)
 
 Min(S) == CHOOSE x \in S : \A y \in S : x <= y
-ASSUME 0 \in PrefixLens /\ 0 \in Earliers /\ 0 \in Depths /\ 0 \in Pads /\ FALSE \in Negs
+ASSUME 0 \in PrefixLens /\ 0 \in Earliers /\ 0 \in Depths /\ 0 \in Pads /\ FALSE \in Negs /\ 0 \in Wraps
 \* << k inserted blanks, k inserted lines >>: the unshifted placement, each shift alone, and the largest of both together
 Max(S) == CHOOSE x \in S : \A y \in S : x >= y
 Shifts == {<<0, 0>>} \cup {<<g, 0>> : g \in Gaps} \cup {<<0, l>> : l \in Lines}
@@ -84,12 +87,18 @@ Shifts == {<<0, 0>>} \cup {<<g, 0>> : g \in Gaps} \cup {<<0, l>> : l \in Lines}
 S0(v) == [k |-> "s", v |-> v, st |-> "", tg |-> ""]
 \* target scalar: value pre \o post, the marked character is the first one of post (tg "tok") or the
 \* first written character of the scalar (tg "val")
-T(pre, post, st, tg) == [k |-> "s", v |-> pre \o post, st |-> st, tg |-> tg, pre |-> pre, post |-> post]
+T(pre, post, st, tg) == [k |-> "s", v |-> pre \o post, st |-> st, tg |-> tg, pre |-> pre, post |-> post, brk |-> FALSE]
 M(ps) == [k |-> "m", p |-> ps, st |-> ""]
 Q(es) == [k |-> "q", e |-> es, st |-> ""]
 C(n, cs) == [n EXCEPT !.st = IF cs = "flow" THEN "flow" ELSE ""]
-E(key, n) == [key |-> key, kst |-> "", ktg |-> FALSE, n |-> n]
-EK(key, kst, n) == [key |-> key, kst |-> kst, ktg |-> TRUE, n |-> n]      \* the KEY is the target
+\* ktg: "" | "key" (the KEY is the target) | "prev" (the key is the earlier occurrence a message refers to);
+\* brk: a wrapped flow mapping breaks the line in front of this entry
+E(key, n) == [key |-> key, kst |-> "", ktg |-> "", brk |-> FALSE, n |-> n]
+EK(key, kst, n) == [key |-> key, kst |-> kst, ktg |-> "key", brk |-> FALSE, n |-> n]
+EP(key, n) == [key |-> key, kst |-> "", ktg |-> "prev", brk |-> FALSE, n |-> n]
+Brk(e) == [e EXCEPT !.brk = TRUE]
+\* a scalar that is the earlier occurrence named in the message ("previously defined at", "the same value is at")
+P0(v) == [k |-> "s", v |-> v, st |-> "", tg |-> "prev"]
 
 QuoteChar(st) == CASE st = "single" -> "'" [] st = "double" -> "\"" [] OTHER -> ""
 IsQuoted(st) == st \in {"single", "double"}
@@ -102,9 +111,15 @@ Sp(n) == IF n = 0 THEN "" ELSE " " \o Sp(n - 1)
 Put(w, s) == [w EXCEPT !.cur = @ \o s]
 NL(w) == [w EXCEPT !.ls = Append(@, w.cur), !.cur = ""]
 Here(w) == << Len(w.ls) + 1, Len(w.cur) + 1 >>
+\* new line of a block collection, indented n blanks
+PadLine(w, n) == [Put(NL(w), Sp(n)) EXCEPT !.li = n]
+\* separator of two entries of a flow collection: ", " or, in front of a marked entry of a wrapped collection, "," and a
+\* continuation line indented o.wrap blanks more than the block line it belongs to
+Sep(w, brk) == IF brk /\ w.o.wrap > 0 THEN Put(NL(Put(w, ",")), Sp(w.li + w.o.wrap)) ELSE Put(w, ", ")
 
 PutScalar(w, n) ==
   IF n.tg = "" THEN Put(w, QuoteChar(n.st) \o n.v \o QuoteChar(n.st))
+  ELSE IF n.tg = "prev" THEN Put([w EXCEPT !.prev = Here(w)], QuoteChar(n.st) \o n.v \o QuoteChar(n.st))
   ELSE IF n.tg = "tok2"       \* companion: a second construct of the same class, no blanks inserted in front of it
   THEN LET w3 == Put(w, QuoteChar(n.st) \o n.pre) IN
        Put([w3 EXCEPT !.at2 = Here(w3)], n.post \o QuoteChar(n.st))
@@ -116,8 +131,9 @@ PutScalar(w, n) ==
 
 \* inflow: extra blanks in front of a key are only possible inside a flow mapping
 PutKey(w, e, inflow) ==
-  LET w1 == IF e.ktg /\ inflow THEN Put(w, Sp(w.o.gap)) ELSE w
-      w2 == IF e.ktg THEN [w1 EXCEPT !.sc = Here(w1), !.at = Here(w1)] ELSE w1
+  LET w1 == IF e.ktg = "key" /\ inflow THEN Put(w, Sp(w.o.gap)) ELSE w
+      w2 == IF e.ktg = "key" THEN [w1 EXCEPT !.sc = Here(w1), !.at = Here(w1)]
+            ELSE IF e.ktg = "prev" THEN [w1 EXCEPT !.prev = Here(w1)] ELSE w1
   IN Put(w2, QuoteChar(e.kst) \o e.key \o QuoteChar(e.kst) \o ":")
 
 IsFlow(n) == n.k # "s" /\ n.st = "flow"
@@ -129,10 +145,12 @@ Flow(w, n) ==
   ELSE Put(FMap(Put(w, "{"), n, 1), "}")
 FSeq(w, n, i) ==
   IF i > Len(n.e) THEN w
-  ELSE FSeq(Flow(IF i > 1 THEN Put(w, ", ") ELSE w, n.e[i]), n, i + 1)
+  ELSE LET x == n.e[i]
+           brk == IF x.k = "s" THEN (IF x.tg \in {"val", "tok"} THEN x.brk ELSE FALSE) ELSE FALSE IN
+       FSeq(Flow(IF i > 1 THEN Sep(w, brk) ELSE w, x), n, i + 1)
 FMap(w, n, i) ==
   IF i > Len(n.p) THEN w
-  ELSE LET w1 == IF i > 1 THEN Put(w, ", ") ELSE w
+  ELSE LET w1 == IF i > 1 THEN Sep(w, n.p[i].brk) ELSE w
            w2 == Put(PutKey(w1, n.p[i], TRUE), " ")
        IN FMap(Flow(w2, n.p[i].n), n, i + 1)
 
@@ -140,17 +158,17 @@ Block(w, n, col) == IF n.k = "m" THEN BMap(w, n, col, 1) ELSE BSeq(w, n, col, 1)
 BMap(w, n, col, i) ==
   IF i > Len(n.p) THEN w
   ELSE LET x == n.p[i].n
-           w1 == IF i > 1 THEN Put(NL(w), Sp(col - 1)) ELSE w
+           w1 == IF i > 1 THEN PadLine(w, col - 1) ELSE w
            w2 == PutKey(w1, n.p[i], FALSE)
            c == IF x.k = "q" /\ ~w.o.seqind THEN col ELSE col + w.o.ind
            w3 == IF x.k = "s" THEN PutScalar(Put(w2, " "), x)
                  ELSE IF IsFlow(x) THEN Flow(Put(w2, " "), x)
-                 ELSE Block(Put(NL(w2), Sp(c - 1)), x, c)
+                 ELSE Block(PadLine(w2, c - 1), x, c)
        IN BMap(w3, n, col, i + 1)
 BSeq(w, n, col, i) ==
   IF i > Len(n.e) THEN w
   ELSE LET x == n.e[i]
-           w1 == IF i > 1 THEN Put(NL(w), Sp(col - 1)) ELSE w
+           w1 == IF i > 1 THEN PadLine(w, col - 1) ELSE w
            w2 == Put(w1, "-")
            w3 == IF x.k = "s" THEN PutScalar(Put(w2, " "), x)
                  ELSE IF IsFlow(x) THEN Flow(Put(w2, " "), x)
@@ -162,7 +180,8 @@ Above(w, n) == IF n = 0 THEN w ELSE Above(NL(Put(w, "# pad")), n - 1)
 
 \* o = [ind, seqind, gap, kl, docstart]
 Render(doc, o) ==
-  LET w0 == [ls |-> <<>>, cur |-> "", sc |-> <<0, 0>>, at |-> <<0, 0>>, at2 |-> <<0, 0>>, o |-> o]
+  LET w0 == [ls |-> <<>>, cur |-> "", sc |-> <<0, 0>>, at |-> <<0, 0>>, at2 |-> <<0, 0>>, prev |-> <<0, 0>>,
+             li |-> 0, o |-> o]
       w1 == Above(w0, o.kl)
       w2 == IF o.docstart THEN NL(Put(w1, "---")) ELSE w1
   IN NL(Block(w2, doc, 1))
@@ -356,6 +375,18 @@ Cat(c) ==
                                         "\"runs-on\" is not available")
     [] c = "call-only-key"        -> KV("key", "job", "secrets", "inherit", FALSE, TRUE, "syntax-check",
                                         "\"secrets\" is only available for a reusable workflow call")
+    \* ---- the position is chosen among candidates / an earlier occurrence is named
+    [] c = "excl-branches"  -> KV("key", "excl", "branches", "branches-ignore", FALSE, TRUE, "events",
+                                  "both \"branches\" and \"branches-ignore\" filters cannot be used")
+    [] c = "excl-tags"      -> KV("key", "excl", "tags-ignore", "tags", FALSE, TRUE, "events",
+                                  "both \"tags\" and \"tags-ignore\" filters cannot be used")
+    [] c = "excl-paths"     -> KV("key", "excl", "paths", "paths-ignore", FALSE, TRUE, "events",
+                                  "both \"paths\" and \"paths-ignore\" filters cannot be used")
+    [] c = "needs-cycle"    -> KV("key", "cycle", "a", "", FALSE, TRUE, "job-needs",
+                                  "cyclic dependencies in \"needs\" job configurations are detected")
+    [] c = "label-conflict" -> KV("elem", "runsonseq", "", "windows-latest", FALSE, TRUE, "runner-label",
+                                  "label \"windows-latest\" conflicts with label \"ubuntu-latest\" defined at")
+    [] c = "step-id-dup"    -> KV("val", "stepids", "id", "DUP", FALSE, TRUE, "id", "step ID \"DUP\" duplicates")
     \* ---- two rules report on one scalar: the diagnostic of the rule under test next to one of RuleExpression
     [] c = "deprecated-cmd-expr"  -> KV("val", "stepn", "run", "echo ::set-output name=x::${{ nope }}", FALSE, FALSE,
                                         "deprecated-commands", "workflow command \"set-output\" was deprecated")
@@ -393,7 +424,8 @@ KVClasses == {"unknown-key-top", "unknown-key-conc", "unknown-key-step", "unknow
               "empty-string", "int-literal", "max-parallel-zero", "timeout-zero", "schedule-elem", "event-in-seq",
               "event-in-seq2", "on-schedule-scalar", "call-input-type", "call-type-missing", "call-value-missing",
               "key-conflict-run", "key-conflict-uses", "workdir-with-uses", "secrets-scalar", "call-stepsonly-key",
-              "call-only-key", "deprecated-cmd-expr", "if-always-expr", "activity-type-expr", "matrix-dup-expr"}
+              "call-only-key", "excl-branches", "excl-tags", "excl-paths", "needs-cycle", "label-conflict", "step-id-dup",
+              "deprecated-cmd-expr", "if-always-expr", "activity-type-expr", "matrix-dup-expr"}
 GlobClasses == {"glob-refchar", "glob-space", "glob-quant", "glob-empty", "glob-range", "glob-refchar-expr"}
 AllClasses == ExprClasses \cup KVClasses \cup GlobClasses
 \* class sets named by the configurations (spec/cfg/Position_*.cfg)
@@ -407,6 +439,11 @@ BlockOnly == {"runname", "timeout", "top", "job", "runson", "jobid", "needsunk",
 WholeSlots == {"timeout"}
 BareSlots == {"ifb"}
 NoContextSlots == {"filter", "types"}
+\* classes whose host marks an entry in front of which a wrapped flow collection breaks the line: diagnostics whose
+\* position is CHOSEN among several candidates (the later of two keys, the first job of a cycle, the second of two equal
+\* values ...) or which name an earlier occurrence
+WrapClasses == {"excl-branches", "excl-tags", "excl-paths", "needs-cycle", "dup-key-step", "dup-key-env", "matrix-dup",
+                "label-conflict", "unknown-key-conc", "needs-dup"}
 PlainOnly == {"max-parallel-zero", "timeout-zero"}      \* a quoted 0 is a string, not the number 0
 SlotsOf(c) == IF Cat(c).fam \in {"tok", "ph"} THEN Cat(c).slots \cap Slots ELSE Cat(c).slots
 
@@ -494,10 +531,21 @@ KVDoc(p) ==
       ent == IF c.role = "key" THEN EK(c.key, st, S0(c.val)) ELSE E(c.key, x)
       s == p.slot IN
   CASE s = "top" -> WF(S0("push"), << ent >>, JobsPlain)
-    [] s = "conc" -> WF(S0("push"), << E("concurrency", C(M(<< E("group", S0("x")), ent >>), cs)) >>, JobsPlain)
+    [] s = "conc" -> WF(S0("push"), << E("concurrency", C(M(<< E("group", S0("x")), Brk(ent) >>), cs)) >>, JobsPlain)
     [] s = "perm" -> WF(S0("push"), << E("permissions", C(M(<< E("contents", S0("read")), ent >>), cs)) >>, JobsPlain)
-    [] s = "env" -> WF(S0("push"), << E("env", C(M(<< E("A", S0("x")), ent >>), cs)) >>, JobsPlain)
-    [] s = "step" -> WF(S0("push"), <<>>, Jobs(<<>>, Q(<< C(M(<< E("run", S0("echo")), ent >>), cs) >>)))
+    [] s = "env" -> WF(S0("push"), << E("env", C(M(<< EP("A", S0("x")), Brk(ent) >>), cs)) >>, JobsPlain)
+    [] s = "step" -> WF(S0("push"), <<>>, Jobs(<<>>, Q(<< C(M(<< EP("run", S0("echo")), Brk(ent) >>), cs) >>)))
+    [] s = "excl" -> WF(M(<< E("push", C(M(<< E(c.val, C(Q(<< S0("a") >>), "flow")),
+                                              Brk(EK(c.key, st, C(Q(<< S0("b") >>), "flow"))) >>), cs)) >>), <<>>, JobsPlain)
+    [] s = "cycle" -> WF(S0("push"), <<>>,
+                         C(M(<< EK(c.key, st, JobBody(<< E("needs", S0("b")) >>, Q(<< Step0 >>))),
+                                Brk(E("b", JobBody(<< E("needs", S0("a")) >>, Q(<< Step0 >>)))) >>), cs))
+    [] s = "runsonseq" -> WF(S0("push"), <<>>,
+                             M(<< E("test", M(<< E("runs-on", C(Q(<< P0("ubuntu-latest"), [x EXCEPT !.brk = TRUE] >>), cs)),
+                                                 E("steps", Q(<< Step0 >>)) >>)) >>))
+    [] s = "stepids" -> WF(S0("push"), <<>>,
+                           Jobs(<<>>, Q(<< M(<< E("run", S0("echo")), E("id", P0("dup")) >>),
+                                           C(M(<< E("run", S0("echo")), ent >>), cs) >>)))
     [] s = "stepn" -> WF(S0("push"), <<>>, Jobs(<<>>, Q(<< M(<< E("name", S0("n")), ent >>) >>)))
     [] s = "with" -> WF(S0("push"), <<>>,
                         Jobs(<<>>, Q(<< M(<< E("uses", S0("actions/checkout@v4")),
@@ -508,7 +556,7 @@ KVDoc(p) ==
     [] s = "needsunk" -> WF(S0("push"), <<>>,
                             M(<< EK(c.key, st, JobBody(<< E("needs", S0("nope")) >>, Q(<< Step0 >>))) >>))
     [] s = "needs" -> WF(S0("push"), <<>>,
-                         M(<< E("test", JobBody(<< E("needs", C(Q(<< S0("test2"), x >>), cs)) >>, Q(<< Step0 >>))),
+                         M(<< E("test", JobBody(<< E("needs", C(Q(<< S0("test2"), [x EXCEPT !.brk = TRUE] >>), cs)) >>, Q(<< Step0 >>))),
                               E("test2", JobBody(<<>>, Q(<< Step0 >>))) >>))
     [] s = "push" -> WF(M(<< E("push", C(M(<< E("branches", S0("main")), ent >>), cs)) >>), <<>>, JobsPlain)
     [] s = "globv" -> WF(M(<< E("push", C(M(<< E("types", S0("x")), E(c.key, x) >>), cs)) >>), <<>>, JobsPlain)
@@ -546,7 +594,7 @@ KVDoc(p) ==
                               Jobs(<< E("strategy", M(<< E("matrix", M(<< E("k", C(Q(<< [S0(c.val) EXCEPT !.st = "single"], x >>), cs)) >>)) >>)) >>,
                                    Q(<< Step0 >>)))
     [] s = "matrixdup" -> WF(S0("push"), <<>>,
-                             Jobs(<< E("strategy", M(<< E("matrix", M(<< E("k", C(Q(<< S0("1"), S0("2"), x >>), cs)) >>)) >>)) >>,
+                             Jobs(<< E("strategy", M(<< E("matrix", M(<< E("k", C(Q(<< P0("1"), S0("2"), [x EXCEPT !.brk = TRUE] >>), cs)) >>)) >>)) >>,
                                   Q(<< Step0 >>)))
     [] s = "exclude" -> WF(S0("push"), <<>>,
                            Jobs(<< E("strategy", M(<< E("matrix", M(<< E("k", Q(<< S0("1") >>)),
@@ -554,7 +602,7 @@ KVDoc(p) ==
                                 Q(<< Step0 >>)))
 
 Doc(p) == IF Cat(p.cls).fam \in {"tok", "ph"} THEN ExprDoc(p) ELSE KVDoc(p)
-Opts(p) == [ind |-> p.ind, seqind |-> p.seqind, gap |-> p.gap, kl |-> p.kl, docstart |-> p.docstart]
+Opts(p) == [ind |-> p.ind, seqind |-> p.seqind, gap |-> p.gap, kl |-> p.kl, docstart |-> p.docstart, wrap |-> p.wrap]
 
 ----------------------------------------------------------------------------
 (* Which placements can be written at all (YAML, one line, no escape sequences) *)
@@ -580,6 +628,7 @@ Valid(p) ==
   /\ (expr /\ p.slot = "matrix") \/ p.depth = Min(Depths)
   /\ (expr /\ ~bare /\ p.slot \notin WholeSlots /\ p.quote # "plain") \/ p.pad = 0
   /\ (c.fam = "glob" /\ p.quote # "plain") \/ p.neg = FALSE      \* a plain scalar starting with ! is a YAML tag
+  /\ (p.cls \in WrapClasses /\ p.style = "flow") \/ p.wrap = 0
   \* k blanks in front of a block mapping key would change the indentation of the mapping
   /\ TargetIsBlockKey(p) => p.gap = 0
 
@@ -604,14 +653,14 @@ Place ==
   /\ st = "cls"
   /\ \E quote \in Quotes, style \in Styles, ind \in Indents, seqind \in SeqInds, depth \in Depths,
         plen \in PrefixLens, earlier \in Earliers, ws \in Blanks, sh \in Shifts, ds \in DocStarts,
-        pad \in Pads, neg \in Negs :
+        pad \in Pads, neg \in Negs, wrap \in Wraps :
        LET p == [cls |-> v.cls, slot |-> v.slot, quote |-> quote, style |-> style, ind |-> ind, seqind |-> seqind,
                  depth |-> depth, plen |-> plen, earlier |-> earlier, ws |-> ws, gap |-> sh[1], kl |-> sh[2],
-                 docstart |-> ds, pad |-> pad, neg |-> neg] IN
+                 docstart |-> ds, pad |-> pad, neg |-> neg, wrap |-> wrap] IN
        /\ Valid(p)
        /\ LET doc == Doc(p)
               r == Render(doc, Opts(p)) IN
-          v' = [p |-> p, sc |-> r.sc, at |-> r.at, at2 |-> r.at2, quoted |-> IsQuoted(quote),
+          v' = [p |-> p, sc |-> r.sc, at |-> r.at, at2 |-> r.at2, prev |-> r.prev, quoted |-> IsQuoted(quote),
                 nlines |-> Len(r.ls), tline |-> r.ls[r.at[1]]]
   /\ st' = "run"
   /\ m' = [pc |-> "start"]
@@ -672,6 +721,7 @@ Emit ==
                    phrase |-> Cat(v.p.cls).phrase, p |-> v.p, doc |-> Doc(v.p),
                    exp |-> [line |-> m.line, col |-> m.col],
                    exp2 |-> [line |-> v.at2[1], col |-> v.at2[2]],     \* truth of the companion construct, 0:0 if none
+                   prev |-> [line |-> v.prev[1], col |-> v.prev[2]],   \* earlier occurrence named in the message, 0:0 if none
                    sc |-> [line |-> v.sc[1], col |-> v.sc[2], q |-> v.quoted],
                    nlines |-> v.nlines, tline |-> v.tline])
   /\ UNCHANGED << v, m >>
